@@ -223,6 +223,7 @@ func init() {
 			c.ruleThreshB()
 			c.min("R-THRESHCONV/B", 9)
 			c.ruleJustificationSigs()
+			c.ruleBranchAccum()
 			c.doc("R-FULLSCAN", "every induction-variable loop over the precommit list in the justification verifier / ValidateCommit visits every element (affine index reasoning in the coordinates of the underlying list): the lowest precommit (ancestry base), the signature checks and the weight tally must not skip an entry depending on its position")
 			if sp := c.ssaPkg("internal/client/consensus/grandpa"); sp != nil {
 				for _, f := range allFuncs(c, sp) {
